@@ -188,7 +188,7 @@ func shippedLexers() []*shippedLexer {
 
 type contractCfg struct {
 	line, col     bool
-	colAfterNL    bool // columns are checked on lines > 1 as well
+	colAfterNL    bool                                         // columns are checked on lines > 1 as well
 	gapScan       func(state int, text string) (size, act int) // nil: gaps are not examined
 	spaceAct      map[int]bool
 	bomSkipped    bool
